@@ -41,5 +41,31 @@ class FormatToFString(ast.NodeTransformer):
         return new
 
 
+class _BoundFormat(ast.NodeTransformer):
+    """fmt = "{:12.8f} {:12.8f}".format ; fmt(x, y)   ->   "{:12.8f} {:12.8f}".format(x, y)   (aliases bound once in a function)."""
+    def visit_FunctionDef(self, node):
+        self.generic_visit(node)
+        alias, count = {}, {}
+        for n in ast.walk(node):
+            if isinstance(n, ast.Name) and isinstance(n.ctx, ast.Store):
+                count[n.id] = count.get(n.id, 0) + 1
+            if isinstance(n, ast.Assign) and len(n.targets) == 1 and isinstance(n.targets[0], ast.Name) and isinstance(n.value, ast.Attribute) \
+                    and n.value.attr == "format" and isinstance(n.value.value, ast.Constant) and isinstance(n.value.value.value, str):
+                alias[n.targets[0].id] = n.value
+        alias = {k: v for k, v in alias.items() if count.get(k) == 1}
+        if not alias:
+            return node
+
+        class R(ast.NodeTransformer):
+            def visit_Call(self, c):
+                self.generic_visit(c)
+                if isinstance(c.func, ast.Name) and c.func.id in alias:
+                    import copy
+                    return ast.copy_location(ast.Call(copy.deepcopy(alias[c.func.id]), c.args, c.keywords), c)
+                return c
+        return R().visit(node)
+
+
 def normalise(tree):
+    tree = _BoundFormat().visit(tree)
     return FormatToFString().visit(tree)
